@@ -99,7 +99,12 @@ func closedFrames(b []byte) int {
 }
 
 // SockFeed plays the chunks on a fresh connection and returns the reader events.
+// SockLate: for the last SockFeed call, the chunks after which the reader had dispatched FEWER events than frames
+// closed by the bytes sent so far when the bounded wait ended (promptness), as "chunk:have/want".
+var SockLate []string
+
 func SockFeed(chunks [][]byte) (evs []string, problem string) {
+	SockLate = nil
 	s := sockServer()
 	s.mu.Lock()
 	defer s.mu.Unlock()
@@ -131,7 +136,7 @@ func SockFeed(chunks [][]byte) (evs []string, problem string) {
 			return rec.snapshot(), "write: " + err.Error()
 		}
 		sent = append(sent, ch...)
-		want := closedFrames(sent)
+		want := closedFrames(sent) - SockUncounted(sent)
 		// wait (bounded) until the reader has dispatched every frame closed so far; when the chunk
 		// closes no frame give the reader a moment to pick it up so that reads are not merged
 		deadline := time.Now().Add(400 * time.Millisecond)
@@ -140,6 +145,9 @@ func SockFeed(chunks [][]byte) (evs []string, problem string) {
 		}
 		for rec.n() < want && time.Now().Before(deadline) {
 			time.Sleep(100 * time.Microsecond)
+		}
+		if have := rec.n(); have != want {
+			SockLate = append(SockLate, fmt.Sprintf("%d:%d/%d", len(sent), have, want))
 		}
 	}
 	c.Close()
@@ -172,4 +180,24 @@ func init() {
 		}
 		return "ok " + strings.Join(evs, ";")
 	})
+}
+
+// SockUncounted: complete frames among the bytes sent so far that produce no reader callback (0x8003 goes to the
+// re-request channel without OnReadExecutionEvent): frames whose first two payload bytes are 80 03 (no escape
+// can occur in them).
+func SockUncounted(sent []byte) int {
+	n, k := 0, 0
+	start := -1
+	for i, x := range sent {
+		if x != 0x7e {
+			continue
+		}
+		k++
+		if k%2 == 1 {
+			start = i
+		} else if start >= 0 && i-start > 3 && sent[start+1] == 0x80 && sent[start+2] == 0x03 {
+			n++
+		}
+	}
+	return n
 }
